@@ -56,6 +56,28 @@ EXTRA_TEMPLATES = [
 ]
 
 
+# always swept, whatever the per-template cap: output shapes whose assembly paths are rarely taken
+# (a dense level between two compressed levels, compressed below dense under a permuted ordering,
+# compressed outputs fed by all-compressed inputs)
+PRIORITY = [
+    ("a(i,j,k) = b(i,j,k)", {"a": "sds", "b": "sss"}),
+    ("a(i,j,k) = b(i,j,k)", {"a": "sds", "b": "dss"}),
+    ("a(i,j,k) = b(i,j,k)", {"a": "s2d1s0", "b": "s2s1s0"}),
+    ("a(i,j,k) = b(i,j,k)", {"a": "ssd", "b": "sss"}),
+    ("a(i,j,k) = b(i,j,k)", {"a": "dsd", "b": "sss"}),
+    ("a(i,j,k) = b(i,j,k)", {"a": "s0d2s1", "b": "s0s2s1"}),
+    ("a(i,j,k) = b(i,j,k) + c(i,j,k)", {"a": "sds", "b": "sss", "c": "sss"}),
+    ("a(i,j,k) = b(i,j,k) * c(i,j,k)", {"a": "sds", "b": "sss", "c": "sss"}),
+    ("a(i,j,k) = b(i,j,k) * c(k)", {"a": "sds", "b": "sss", "c": "s"}),
+    ("a(i,j) = b(i,j)", {"a": "s1d0", "b": "s1s0"}),
+    ("a(i,j) = b(i,j)", {"a": "s1d0", "b": "ds"}),
+    ("a(i,j) = b(i,j) + c(i,j)", {"a": "sd", "b": "ss", "c": "ss"}),
+    ("a(i,j) = b(i,j) * c(i,j)", {"a": "sd", "b": "ss", "c": "ss"}),
+    ("a(i,j) = b(i,k) * c(k,j)", {"a": "ss", "b": "ss", "c": "ss"}),
+    ("a(i,j) = b(i,k) * c(k,j)", {"a": "sd", "b": "ss", "c": "ds"}),
+]
+
+
 def err_name(e: BaseException) -> str:
     tb = traceback.extract_tb(e.__traceback__)
     site = "?"
@@ -210,7 +232,7 @@ def gen_problems(seed: int, tier: str):
     """(assignment, formats) with a compressed level in the output format; deterministic in seed."""
     rng = random.Random(f"C02-problems:{seed}")
     cap = 9 if tier == "quick" else 120
-    problems = []
+    problems = [(a, dict(f)) for a, f in PRIORITY]
     templates = list(sweep.TEMPLATES) + EXTRA_TEMPLATES
     for a in templates:
         orders = sweep.orders_of(a)
